@@ -218,24 +218,39 @@ fn order_case(rng: &mut Rng, rep: &mut Report, idx: u64) {
 fn painter_case(rng: &mut Rng, rep: &mut Report) {
     let n = 2 + rng.usize(5);
     let (w, h) = (8 + rng.below(40) as u32, 8 + rng.below(40) as u32);
-    let near = 1.0f32;
-    let far = 100.0f32;
+    let near = rng.pick(&[0.1f32, 1.0, 5.0]);
+    let far = near * rng.pick(&[10.0f32, 100.0, 1000.0]);
     let focal = rng.pick(&[0.7f32, 1.0, 1.5]);
     let proj = perspective(focal, w as f32 / h as f32, near..far);
-    // disjoint depth slabs, shuffled so submission order is unrelated
+    // disjoint depth slabs in geometric progression starting right behind
+    // the near plane (clip z is negative below ≈ 2·near, positive beyond),
+    // shuffled so that submission order is unrelated to depth
     let mut slabs: Vec<usize> = (0..n).collect();
     rng.shuffle(&mut slabs);
+    let g = rng.pick(&[1.25f32, 1.6, 2.5]);
     let mut verts = vec![];
     let mut tris = vec![];
     for (k, &s) in slabs.iter().enumerate() {
-        let (z0, z1) = (2.0 + 6.0 * s as f32, 2.0 + 6.0 * s as f32 + 4.0);
+        let z0 = near * 1.02 * g.powi(s as i32);
+        let z1 = z0 * (1.0 + 0.6 * (g - 1.0));
+        if z1 >= far {
+            continue;
+        }
+        let kk = tris.len();
+        let _ = k;
         for _ in 0..3 {
             let z = rng.f32_in(z0, z1);
             // partly outside the side planes now and then (gets clipped)
             let r = if rng.chance(1, 4) { 1.5 } else { 0.95 };
             verts.push(([rng.f32_in(-r, r) * z / focal, rng.f32_in(-r, r) * z / (focal * w as f32 / h as f32), z], rng.f32_in(0.0, 1.0)));
         }
-        tris.push([3 * k, 3 * k + 1, 3 * k + 2]);
+        tris.push([3 * kk, 3 * kk + 1, 3 * kk + 2]);
+    }
+    if tris.len() < 2 {
+        return;
+    }
+    if verts.iter().any(|(p, _)| p[2] < 1.9 * near) {
+        rep.count("painter.scenes_with_triangles_within_2x_near");
     }
     let mut hs = Hasher::new();
     for (p, _) in &verts {
@@ -305,5 +320,6 @@ pub fn run(cfg: &Cfg, rep: &mut Report) {
     rep.floor("scenes_with_discarding_shader", 1_000);
     rep.floor("pixels_with_overlapping_layers", 200_000);
     rep.floor("painter.pixels_compared", 500_000);
+    rep.floor("painter.scenes_with_triangles_within_2x_near", 5_000);
     let _ = ClipScene::<f32> { verts: vec![], tris: vec![] };
 }
